@@ -86,7 +86,7 @@ class UpdateReferences:
       if value.line is oldref:
         if newref is None:
           newref = str(oldref)
-        value.line = newref
+        value._set_line(newref)
 
   def __update_reference_in_list(self, lst, oldref, newref):
     found = False
@@ -120,7 +120,7 @@ class UpdateReferences:
               elif oldref.overlap and newref.overlap and \
                   oldref.overlap != newref.overlap:
                 elem.orient = gfapy.invert(elem.orient)
-          elem.line = newref
+          elem._set_line(newref)
           found = True
     if newref is None and found:
       lst[:] = [e for e in lst if e is not None and \
